@@ -715,6 +715,21 @@ def c35(run):
         level_note="thorough tier is exhaustive; quick is boundary + random")
 
 
+@check("C25")
+def c25(run):
+    run.mc_leg("mc_sourceinfo", "MC_SourceInfo", "MC_SourceInfo6.cfg" if run.tier == "thorough" else "MC_SourceInfo.cfg", workers=16)
+    run.table_leg("srcinfo", ["srcinfo"], workers=16)
+    return run.finish(
+        rule="MC: for every string of up to 5 (thorough: 6) symbols over {letter, space, tab, CR, LF, NBSP} and every index up "
+             "to length+3 the operators of spec/SourceInfo.tla satisfy C25 stated in its own words (line count = newlines+1; raw "
+             "lines tile the text; span/text of a line = the line minus whole whitespace characters at both ends; the position "
+             "of an index is on the line that holds it, past the end on the last line, line start + column = index).  TV: the "
+             "real SourceInfo on every string of up to 4 symbols over 8 symbols (thorough: 6 over 6) and on random longer strings "
+             "with further Unicode whitespace, separators and emoji: count_lines, line_span and read_line for every line and two "
+             "beyond, get_pos_pair for every index up to length+10, each compared with those operators",
+        level_note="whitespace is Unicode White_Space (what str::trim removes), modelled on UTF-8 byte sequences")
+
+
 ASM_CONF = ["conf-accept", "conf-err", "conf-blocks", "conf-sym"]
 
 
@@ -840,6 +855,24 @@ def c18(run):
              "and non-ASCII characters, ' | ' inside comments and strings, '=' and '#' at line starts, empty and "
              "whitespace-only lines",
         level_note="the text grammar itself is not transcribed (DESIGN.md section 8)")
+
+
+@check("C19")
+def c19(run):
+    run.rec_leg("untrusted", ["untrusted"], verdict=["panic", "load-kind", "unknown-event"], heap="16g")
+    return run.finish(
+        rule="inputs to BinaryFormat::deserialize and TextFormat::deserialize: random bytes/texts (with and without the magic "
+             "header), byte- and line-level mutations of valid serializations (truncation, duplication, lengths, dividers, "
+             "headers, huge numbers, bad escapes), and abstract objects that break the writers' invariants, written by the "
+             "harness's own writers (blocks that wrap, end at x10000, sit at xFFFF, overlap, are empty or huge, uninitialized "
+             "runs up to xFFFF, relocation entries anywhere, flipped external flags, odd label names, label offsets and line "
+             "numbers up to 2^64-1, line tables past the source, unsorted or overlapping line blocks, source removed / "
+             "truncated / replaced); every accepted object is projected (label_iter, line_iter, source_info), re-serialized in "
+             "both formats and read back, loaded into a simulator and stepped, queried (rev_lookup_line, read_line, "
+             "get_label_source), and linked with three assembled partners in both orders and with itself, and every successful "
+             "link result is used again the same way; everything under catch_unwind, a panic anywhere rejects the record; the "
+             "link outcomes are also compared with the total operator Linker!Link on the abstract objects",
+        level_note="agreement with Linker!Link on malformed objects is conformance (drift); harness profile has overflow checks on")
 
 
 @check("C26")
